@@ -1,7 +1,7 @@
 (** C01/C02 — plain selection sets, part 2: one branch of the model's tree denotes exactly the body
     of the specification's denotation for that (object, assignment). *)
 From V Require Import Base.Util Gql.Ast Writer.Wop Ts.TsType Ts.TsDen
-     C01.Model C01.Spec C01.TsLemmas C01.TreeDen C01.Proofs C01.EnvDen C01.PlainBase C01.PlainCore.
+     C01.Model C01.Spec C01.Guards C01.TsLemmas C01.TreeDen C01.Proofs C01.EnvDen C01.PlainBase C01.PlainCore.
 
 Lemma Forall2_in_l {A B} (R : A -> B -> Prop) l l' x : Forall2 R l l' -> In x l -> exists y, In y l' /\ R x y.
 Proof.
